@@ -122,7 +122,10 @@ class BankMachine(Module):
             req.connect(cmd_buffer_lookahead.sink, keep={"valid", "ready", "we", "addr"}),
             cmd_buffer_lookahead.source.connect(cmd_buffer.sink),
             cmd_buffer.source.ready.eq(req.wdata_ready | req.rdata_valid),
-            req.lock.eq(cmd_buffer_lookahead.source.valid | cmd_buffer.source.valid),
+            # Note: with a buffered lookahead FIFO an accepted command is inside the FIFO for one cycle
+            # before source.valid rises, hence the level term.
+            req.lock.eq(cmd_buffer_lookahead.source.valid | cmd_buffer.source.valid |
+                (cmd_buffer_lookahead.level != 0)),
         ]
 
         slicer = _AddressSlicer(settings.geom.colbits, address_align)
